@@ -133,6 +133,22 @@ class Dir:
                 return True
         return False
 
+    def driver(self, block):
+        """block of the call that drives the loop around `block` (next / next_back, else last / pop / first), or None"""
+        f = self.f
+        best = None
+        for bi, t in f.calls():
+            n = strip_generics(callee_name(t) or '')
+            tail = n.rsplit('::', 1)[-1]
+            if bi in self.dom.get(block, ()) and bi in f.reachable_blocks(block):
+                if tail in ('next', 'next_back') and ('Iterator' in n or 'iter' in n.lower()):
+                    if best is None or best[0] < 2 or len(self.dom.get(bi, ())) > best[1]:
+                        best = (2, len(self.dom.get(bi, ())), bi)
+                elif tail in ('last', 'last_mut', 'pop', 'pop_back', 'first', 'first_mut', 'pop_front') and t['args'] and (best is None or best[0] < 2):
+                    if best is None:
+                        best = (1, len(self.dom.get(bi, ())), bi)
+        return best[2] if best else None
+
     def loop_dir(self, block, depth=0):
         """direction of the loop that governs `block`: the innermost Iterator::next call that dominates it and is reached again from it"""
         f = self.f
@@ -165,6 +181,30 @@ def emission_directions(w, f, root_field='locals', emitters=()):
         if not in_loop:
             continue
         d = Dir(f, root_field)
+        # only loops that emit *their items* (or something computed from them): a counted loop that emits the same constant instruction n times
+        # has no order
+        drv = d.driver(bi)
+        if drv is None:
+            continue
+        from facts import origins
+        org = origins(f)
+        ITEM = ('@next', '@next_back', '@last', '@last_mut', '@pop', '@first', '@pop_back', '@pop_front')
+
+        def from_item(pl, depth=0):
+            if pl is None:
+                return False
+            for q in org.get(pl['l'], ()):
+                if any(tok in ITEM for tok in q[1:]) or (q[0][0] == 'call' and q[0][1] == drv):
+                    return True
+                if q[0][0] == 'call' and depth < 2:
+                    # computed from the item by a closure / helper call
+                    for a2 in f.blocks[q[0][1]]['t'].get('args', []):
+                        if from_item(op_place(a2), depth + 1):
+                            return True
+            return False
+        item = any(from_item(op_place(a)) for a in t['args'][1:])
+        if not item:
+            continue
         try:
             out.append((bi, d.loop_dir(bi), ''))
         except Unknown as e:
